@@ -11,6 +11,10 @@
 //!     s     a second handle reads the repository now (its index goes stale)
 //!     a<k>  the second handle finishes a backup of version k: de-duplicated against the stale index, its new files
 //!           (packs, index, snapshot) arrive now — the backup overlapped every prune since `s`
+//!     h<k>  a backup of version k starts now and uploads its PACK files; its index file(s) and its snapshot are not written yet
+//!           (a prune that plans now sees these packs as unreferenced and — unless instant-delete — only marks them)
+//!     e     that backup finishes: its index file(s) and snapshot arrive; from now on the packs are indexed and in use, and no
+//!           later prune may delete them, however long ago they were marked (an `h` without `e` is an interrupted backup)
 //! After `u` / `a` the repository is only *recoverable* (blobs may live in packs marked for deletion) until the next prune.
 //! The harness keeps its own record of WHEN each pack was marked (the injected time of the marking prune): a
 //! non-instant prune may remove a pack only if that record is at least keep-delete old.
@@ -86,7 +90,18 @@ pub fn check_errors_retry(h: &RepoHandle, read_data: bool) -> Option<usize> {
 fn verify(h: &RepoHandle, live: &[Live], step: usize) -> Result<(), String> {
     match check_errors_retry(h, true) {
         Some(0) => {}
-        Some(_) => return Err(fail("check-errors", step)),
+        Some(_) => {
+            if std::env::var("VH_DEBUG").is_ok() {
+                eprintln!("check errors at step {step}: {:?}", repo::check_error_kinds(h, true));
+                if let Ok(files) = all_index(h) {
+                    for (id, f) in files {
+                        eprintln!("index {id:?}: packs {:?} marked {:?}", f.packs.iter().map(|p| (p.id, p.blobs.len())).collect::<Vec<_>>(), f.packs_to_delete.iter().map(|p| (p.id, p.blobs.len(), p.time.map(|t| t.as_second()))).collect::<Vec<_>>());
+                    }
+                }
+                eprintln!("packs stored: {:?}", h.be.ids(FileType::Pack));
+            }
+            return Err(fail("check-errors", step));
+        }
         None => return Err(fail("check-failed", step)),
     }
     let r = h.open().and_then(|r| r.to_indexed()).map_err(|_| fail("open", step))?;
@@ -227,6 +242,8 @@ pub fn exec_hist(t: &[&str]) -> String {
     let mut stale: Option<repo::Store> = None;
     let mut pending = false;
     let mut marked_at: BTreeMap<Id, i64> = BTreeMap::new();
+    // files of a half-done backup that are still to be written (index, snapshot), and the snapshot it will become
+    let mut held: Option<(Vec<((u8, Id), Bytes)>, Live)> = None;
     for (si, st) in steps.iter().enumerate() {
         if st.is_empty() {
             return "bad-op".into();
@@ -325,6 +342,47 @@ pub fn exec_hist(t: &[&str]) -> String {
                 pending = true;
                 Ok(())
             }
+            "h" => {
+                let k: u64 = arg.parse().map_err(|_| "bad-op".to_string())?;
+                if held.is_some() {
+                    return Err("bad-op".into());
+                }
+                let base = h.be.store();
+                let h2 = RepoHandle { be: MemBackend::from_store(base.clone()), hot: None, key: h.key.clone() };
+                let src = source(seed, k, None);
+                let snap = backup(&h2, &src)?;
+                let mut later = vec![];
+                let mut n_packs = 0;
+                for (key, val) in h2.be.store() {
+                    if !base.contains_key(&key) {
+                        if key.0 == repo::ft_idx(FileType::Pack) {
+                            h.be.put_raw(FileType::Pack, key.1, val);
+                            n_packs += 1;
+                        } else {
+                            later.push((key, val));
+                        }
+                    }
+                }
+                if n_packs == 0 && std::env::var("VH_DEBUG").is_ok() {
+                    eprintln!("h{k}: the backup wrote no pack");
+                }
+                held = Some((later, Live { snap, src }));
+                Ok(())
+            }
+            "e" => {
+                if !arg.is_empty() {
+                    return Err("bad-op".into());
+                }
+                let Some((files, l)) = held.take() else { return Err("bad-op".into()) };
+                let mut merged = h.be.store();
+                for (key, val) in files {
+                    _ = merged.insert(key, val);
+                }
+                h.be.set_store(merged);
+                live.push(l);
+                pending = true;
+                Ok(())
+            }
             "p" => {
                 pending = false;
                 prune_step(&h, arg, si, &mut marked_at)
@@ -378,13 +436,15 @@ struct Gen {
     forgotten: Vec<(u64, bool, Option<i64>)>,
     /// open stale handle: (still safe to finish, dt of the first prune since `s`)
     stale: Option<(bool, Option<i64>)>,
+    /// half-done backup (`h`): (version, still safe to finish, dt of the first prune since `h`)
+    half: Option<(u64, bool, Option<i64>)>,
     dt: i64,
     maxv: u64,
 }
 
 impl Gen {
     fn new() -> Self {
-        Self { steps: vec!["b0".into()], live: vec![0], forgotten: vec![], stale: None, dt: 0, maxv: 0 }
+        Self { steps: vec!["b0".into()], live: vec![0], forgotten: vec![], stale: None, half: None, dt: 0, maxv: 0 }
     }
     fn backup(&mut self, v: u64, stats: &mut Stats) {
         self.steps.push(format!("b{v}"));
@@ -428,6 +488,9 @@ impl Gen {
             upd(safe, first);
         }
         if let Some((safe, first)) = &mut self.stale {
+            upd(safe, first);
+        }
+        if let Some((_, safe, first)) = &mut self.half {
             upd(safe, first);
         }
         stats.hit("hist.prune");
@@ -478,6 +541,31 @@ impl Gen {
             _ => false,
         }
     }
+    /// a backup of version `v` starts and uploads its packs; index and snapshot are held back
+    fn open_half(&mut self, v: u64, stats: &mut Stats) {
+        self.steps.push(format!("h{v}"));
+        self.half = Some((v, true, None));
+        self.maxv = self.maxv.max(v);
+        stats.hit("hist.half-done-backup");
+    }
+    /// the half-done backup finishes (only if none of its packs can have been deleted physically in between)
+    fn finish_half(&mut self, stats: &mut Stats) -> bool {
+        match self.half.take() {
+            Some((v, true, first)) => {
+                self.steps.push("e".into());
+                self.live.push(v);
+                stats.hit("hist.half-done-backup-finished");
+                if first.is_some() {
+                    stats.hit("hist.backup-finished-after-prune-marked-its-packs");
+                }
+                true
+            }
+            _ => {
+                stats.hit("hist.half-done-backup-never-finished");
+                false
+            }
+        }
+    }
     fn pos_of(&self, v: u64) -> Option<usize> {
         self.live.iter().rposition(|x| *x == v)
     }
@@ -500,7 +588,7 @@ fn marking_prune(rng: &mut Rng, kd: i64, tight: bool) -> PruneSpec {
 pub fn gen_hist(rng: &mut Rng, stats: &mut Stats, thorough: bool) -> String {
     let seed = rng.below(1_000_000);
     let mut g = Gen::new();
-    let shape = rng.below(8);
+    let shape = rng.below(10);
     match shape {
         // (a) keep-delete > 0, packs still marked, their blobs uploaded again (duplicates) into packs that become
         //     partly used and are repacked while the marked packs are still kept
@@ -574,9 +662,41 @@ pub fn gen_hist(rng: &mut Rng, stats: &mut Stats, thorough: bool) -> String {
                 _ = g.resurrect(rng, stats);
             }
         }
+        // (d) a backup is half done while a non-instant prune plans: its pack files are uploaded, its index and snapshot are not
+        //     written yet, so prune marks the packs as unreferenced; the backup finishes; a prune past keep-delete must not
+        //     delete these packs — they are indexed and in use (the normal index entry wins over the mark)
+        6 | 7 => {
+            stats.hit("hist.shape.prune-while-backup-half-done");
+            let v = 1 + rng.below(4);
+            g.backup(v, stats);
+            if rng.chance(2, 3) {
+                _ = g.forget(rng.below(2) as usize, stats);
+            }
+            let w = *rng.pick(&[v + 1, v + 1, v + 2, v]);
+            g.open_half(w, stats);
+            let kd = *rng.pick(&[0i64, 0, 3600, 82_800]);
+            g.dt += *rng.pick(&[0i64, 0, 90_000]);
+            let tight = rng.chance(1, 2);
+            let p = marking_prune(rng, kd, tight);
+            g.prune(p, stats);
+            _ = g.finish_half(stats);
+            if rng.chance(1, 3) {
+                let x = g.maxv + 1;
+                g.backup(x, stats);
+            }
+            // past keep-delete of the mark
+            g.dt += kd + CLOCK_SLACK + *rng.pick(&[100i64, 3600, 90_000]);
+            let mut p = rand_prune(rng, true);
+            p.kd = *rng.pick(&[0, kd]);
+            g.prune(p, stats);
+            if rng.chance(1, 2) {
+                let p = rand_prune(rng, true);
+                g.prune(p, stats);
+            }
+        }
         _ => stats.hit("hist.shape.random"),
     }
-    let len = if shape < 6 { rng.below(4) } else { 3 + rng.below(if thorough { 12 } else { 7 }) };
+    let len = if shape < 8 { rng.below(4) } else { 3 + rng.below(if thorough { 12 } else { 7 }) };
     for _ in 0..len {
         match rng.below(24) {
             0..=4 => {
@@ -632,12 +752,25 @@ pub fn gen_hist(rng: &mut Rng, stats: &mut Stats, thorough: bool) -> String {
                     _ = g.finish_stale(v, rng, stats);
                 }
             }
+            16 => {
+                if g.half.is_none() {
+                    let v = if rng.chance(2, 3) { g.maxv + 1 } else { rng.below(g.maxv + 1) };
+                    g.open_half(v, stats);
+                } else {
+                    _ = g.finish_half(stats);
+                }
+            }
             _ => {
                 g.dt += *rng.pick(&[0i64, 0, 3600, 90_000]);
                 let p = rand_prune(rng, true);
                 g.prune(p, stats);
             }
         }
+    }
+    if g.half.is_some() && rng.chance(1, 2) {
+        _ = g.finish_half(stats);
+        let p = rand_prune(rng, true);
+        g.prune(p, stats);
     }
     format!("c02 hist {seed} {}", g.steps.join(";"))
 }
